@@ -599,14 +599,18 @@ func (t *Tokenizer) TokenizeContext(ctx context.Context, input []byte) ([]models
 			}
 		}()
 
+		rounds := 0
 		for t.pos.Index < len(t.input) {
-			// Check context every 100 tokens for cancellation
-			if len(tokens)%100 == 0 {
+			// Check the context every 100 rounds of the loop (a round
+			// consumes one token or one comment, so a long run of comments is
+			// interruptible too)
+			if rounds%100 == 0 {
 				if err := ctx.Err(); err != nil {
 					tokenErr = err
 					return
 				}
 			}
+			rounds++
 
 			t.skipWhitespace()
 
